@@ -302,31 +302,37 @@ func (b Branch) CopyEmpty() *Branch {
 	}
 }
 
+// IntersectHash returns the hash of the highest header that is in the chains of both branches.
 func (b *Branch) IntersectHash(other *Branch) *bitcoin.Hash32 {
-	current := b
-	for {
-		if current.parent == nil {
-			break
+	// Highest height in each branch of this branch's ancestry that is part of this branch's chain.
+	limits := make(map[*Branch]int)
+	limit := b.Height()
+	for current := b; current != nil; current = current.parent {
+		limits[current] = limit
+		if current.parentHeight < limit {
+			limit = current.parentHeight
 		}
-
-		if current.parent == other {
-			return &current.firstHeader.PrevBlock
-		}
-
-		current = current.parent
 	}
 
-	current = other
-	for {
-		if current.parent == nil {
-			break
+	// Find the first branch in the other branch's ancestry that is also in this branch's ancestry.
+	limit = other.Height()
+	for current := other; current != nil; current = current.parent {
+		if bLimit, exists := limits[current]; exists {
+			if bLimit < limit {
+				limit = bLimit
+			}
+
+			data := current.AtHeight(limit)
+			if data == nil {
+				return nil
+			}
+
+			return &data.Hash
 		}
 
-		if current.parent == b {
-			return &current.firstHeader.PrevBlock
+		if current.parentHeight < limit {
+			limit = current.parentHeight
 		}
-
-		current = current.parent
 	}
 
 	return nil
